@@ -30,9 +30,9 @@ JOBS = [
     dict(name='c08_delta_decoder_next', replayer=RP_DELTA, entry='h_decoder_next', enforce='delta_decoder_next',
          replace=['delta_decoder_read_mini_block'], **D8),
     dict(name='c08_delta_decode_int32', replayer=RP_DELTA, entry='h_decode_int32', enforce='carquet_delta_decode_int32',
-         replace=['delta_decoder_init', 'delta_decoder_next'], min_loop_obligations=1, **D8),
+         replace=['delta_decoder_init', 'delta_decoder_next'], min_loop_obligations=1, **dict(D8, props=['C08', 'C12'])),
     dict(name='c08_delta_decode_int64', replayer=RP_DELTA, entry='h_decode_int64', enforce='carquet_delta_decode_int64',
-         replace=['delta_decoder_init', 'delta_decoder_next'], min_loop_obligations=1, **D8),
+         replace=['delta_decoder_init', 'delta_decoder_next'], min_loop_obligations=1, **dict(D8, props=['C08', 'C12'])),
     dict(name='c08_delta_length_decode', replayer=RP_LENGTH, entry='h_delta_length_decode', enforce='carquet_delta_length_decode',
          replace=['carquet_delta_decode_int32'], min_loop_obligations=2, **D8S),
     dict(name='c08_delta_strings_decode', replayer=RP_STRINGS, entry='h_delta_strings_decode', enforce='carquet_delta_strings_decode',
